@@ -174,6 +174,7 @@ pub fn run(cfg: &Cfg) -> (&'static str, Report, String, String) {
     }));
     let mut la: Vec<&str> = LEADS.to_vec();
     la.extend(LEADS_HI3);
+    la.extend(ASCII_EDGES);
     let lstrings = strings_upto(&la, cfg.by(1, 2, 3));
     rep.merge(par_for(cfg, lstrings.len(), |i, r| {
         let s = &lstrings[i];
